@@ -478,6 +478,11 @@ class MainWiring(Contract):
             nm = self._argname(b)
             if nm in env:
                 return env[nm]
+            if b.get('kind') == 'DeclRefExpr' and (b.get('referencedDecl') or {}).get('kind') == 'VarDecl':
+                # a named const local holding the selected length: follow its initialiser
+                vds = [x for x in _walk(body(fn)) if x.get('kind') == 'VarDecl' and x.get('id') == b['referencedDecl'].get('id')]
+                if len(vds) == 1 and 'const' in vds[0].get('type', {}).get('qualType', '') and vds[0].get('inner'):
+                    return length_term(vds[0]['inner'][-1])
             raise ExtractionError(f'main: impedance length argument {nm} not understood')
         nbk, spaced, padded = z3.Ints('nbuckets spaced_bins padded_bins')
         lw, lr = length_term(calls['wake_impedance']), length_term(calls['rdtn_impedance'])
